@@ -63,6 +63,9 @@ def concrete(inp):
                 bad.append("%s: permeance supplied in %s exposed as %r %s" % (name, units, dp.permeances[0][0].value, dp.permeances[0][0].units))
             if not (close(dp.partial_fluxes[0][0], P1 * a, 1e-9) and close(dp.partial_fluxes[0][1], P2 * b, 1e-9)):
                 bad.append("%s: fluxes of a curve built from permeances (%s) %r, permeance x feed pressure %r" % (name, units, dp.partial_fluxes[0], (P1 * a, P2 * b)))
+            db = DiffusionCurve(mixture=mix, membrane_name="m", feed_temperature=T, feed_compositions=[comp], partial_fluxes=[(0.3, 0.01)], permeances=[ps])
+            if not (close(db.permeances[0][0].value, P1, 1e-9) and close(db.permeances[0][1].value, P2, 1e-9) and db.permeances[0][0].units == Units.kg_m2_h_kPa):
+                bad.append("%s: curve given both fluxes and permeances in %s exposes %r %s" % (name, units, db.permeances[0][0].value, db.permeances[0][0].units))
             back = DiffusionCurve(mixture=mix, membrane_name="m", feed_temperature=T, feed_compositions=[comp], partial_fluxes=dp.partial_fluxes)
             if not (close(back.permeances[0][0].value, P1, 1e-9) and close(back.permeances[0][1].value, P2, 1e-9)):
                 bad.append("%s: re-inversion gives %r" % (name, back.permeances[0]))
@@ -129,7 +132,7 @@ def inversion(job, mode, basis):
             job.record(tag + "/units_tag", "discharged" if dc.permeances[0][0].units == Units.kg_m2_h_kPa else "violated", "", nontrivial=False,
                        replay={"fn": R_, "inputs": dict(fb[0], mode=mode)})
         if not got:
-            job.vacuity["failed"].append(tag)
+            job.unreached(tag)
 
 
 def from_permeances(job):
@@ -152,13 +155,16 @@ def from_permeances(job):
                 perms = [(build.perm(fs.P1, units), build.perm(fs.P2, units)), (build.perm(Q1, units), build.perm(Q2, units))]
                 dc = DiffusionCurve(mixture=fs.mix, membrane_name="m", feed_temperature=fs.T, feed_compositions=comps, permeances=perms)
                 back = DiffusionCurve(mixture=fs.mix, membrane_name="m", feed_temperature=fs.T, feed_compositions=comps, partial_fluxes=dc.partial_fluxes)
-                return dc, back
+                perms2 = [(build.perm(fs.P1, units), build.perm(fs.P2, units)), (build.perm(Q1, units), build.perm(Q2, units))]
+                both = DiffusionCurve(mixture=fs.mix, membrane_name="m", feed_temperature=fs.T, feed_compositions=comps,
+                                      partial_fluxes=[(real("J1a"), real("J2a")), (real("J1b"), real("J2b"))], permeances=perms2)
+                return dc, back, both
 
             got = 0
             for leaf in job.explore(run, dom, timeout_ms=500):
                 if leaf.kind != "returned":
                     continue
-                dc, back = leaf.value
+                dc, back, both = leaf.value
                 cs = dom + leaf.conds()
                 if not job.feasible(cs):
                     continue
@@ -174,10 +180,14 @@ def from_permeances(job):
                               R_, inputs, fallback=fb, congruence=["GAMMA1_NRTL", "GAMMA2_NRTL"])
                     job.prove("%s/reinversion/p%d" % (tag, i), cs, [lift(back.permeances[i][0].value) != want[i][0], lift(back.permeances[i][1].value) != want[i][1]],
                               R_, inputs, fallback=fb, congruence=["GAMMA1_NRTL", "GAMMA2_NRTL"])
+                    job.prove("%s/both_supplied_exposed_in_kg/p%d" % (tag, i), cs, [lift(both.permeances[i][0].value) != want[i][0], lift(both.permeances[i][1].value) != want[i][1]],
+                              R_, inputs, fallback=fb)
+                    okb = both.permeances[i][0].units == Units.kg_m2_h_kPa and both.permeances[i][1].units == Units.kg_m2_h_kPa
+                    job.judge("%s/both_supplied_units_tag/p%d" % (tag, i), okb, "units %r" % both.permeances[i][0].units, R_, dict(fb[0]), nontrivial=False)
                     ok = dc.permeances[i][0].units == Units.kg_m2_h_kPa and dc.permeances[i][1].units == Units.kg_m2_h_kPa
                     job.record("%s/units_tag/p%d" % (tag, i), "discharged" if ok else "violated", "", nontrivial=False, replay={"fn": R_, "inputs": dict(fb[0])})
             if not got:
-                job.vacuity["failed"].append(tag)
+                job.unreached(tag)
 
 
 def jobs(tier):
